@@ -557,7 +557,11 @@ impl Duration {
         Self::from_total_nanoseconds(if duration.total_nanoseconds() == 0 {
             0
         } else {
-            self.total_nanoseconds() - self.total_nanoseconds() % duration.total_nanoseconds()
+            // Euclidean remainder so that negative durations are floored toward minus infinity
+            self.total_nanoseconds()
+                - self
+                    .total_nanoseconds()
+                    .rem_euclid(duration.total_nanoseconds())
         })
     }
 
